@@ -239,3 +239,43 @@ def fragment_problems(fragment: str, strict_names: bool = False) -> list[str]:
     for e in r.empty_alts:
         out.append("empty alternative")
     return sorted(set(out))
+
+
+def to_rx(alts, rules=None, depth=0):
+    """Translate parsed alternates into a vf.rx regex AST (non-recursive rule references are inlined)."""
+    from vf import rx
+
+    if depth > 12:
+        raise GBNFError("recursive rule: not regular")
+
+    def el(e):
+        k = e[0]
+        if k == "lit":
+            return rx.lit(e[1])
+        if k == "cls":
+            rs = [(a, b) for a, b in e[2]]
+            return rx.cls(rx.neg_ranges(rx.norm_ranges(rs))) if e[1] else rx.cls(rs)
+        if k == "any":
+            return rx.SIGMA
+        if k == "grp":
+            return to_rx(e[1], rules, depth + 1)
+        if k == "ref":
+            if not rules or e[1] not in rules:
+                raise GBNFError("undefined rule " + e[1])
+            return to_rx(rules[e[1]], rules, depth + 1)
+        if k == "rep":
+            inner = el(e[1])
+            lo, hi = e[2]
+            if hi is None:
+                return rx.star(inner) if lo == 0 else (rx.plus(inner) if lo == 1 else rx.cat(*([inner] * lo), rx.star(inner)))
+            if (lo, hi) == (0, 1):
+                return rx.opt(inner)
+            return rx.loop(inner, lo, hi)
+        raise GBNFError("element " + k)
+
+    return rx.alt(*[rx.cat(*[el(e) for e in seq]) for seq in alts])
+
+
+def fragment_lang(fragment: str):
+    r = Reader("root ::= " + fragment + "\n", False).parse()
+    return to_rx(r.rules["root"], r.rules)
